@@ -115,6 +115,20 @@ def _post_axis(name, ax, g1, g2, a, r, result):
     c = _ctx.CURRENT
     if c is None:
         return
+    if a is not None and r is None and _finite(a) and a < 0 and geoms.is_shapely_valid(g1) and geoms.is_shapely_valid(g2):
+        # a negative absolute minimum is outside the stated meaning of intervals_overlap (no model), but the library accepts it and the
+        # clause "the wrappers equal that predicate on the extents" is still decidable: ask the library's own predicate on the reference extents
+        from soundevent.geometry import operations as G
+        b1, b2 = _bounds_of(g1), _bounds_of(g2)
+        i1, i2 = (b1[ax], b1[ax + 2]), (b2[ax], b2[ax + 2])
+        gap = max(i1[0], i2[0]) - min(i1[1], i2[1])
+        if abs(gap + a) > ULP_BAND_REL * max(abs(x) for x in (*i1, *i2, a, 1)) or _dyadic(*i1, *i2, a):
+            c.mon(f"have_{name}_overlap.equals_predicate_negative_threshold")
+            want = bool(instrument.original(G.intervals_overlap)(i1, i2, min_absolute_overlap=a))
+            if bool(result) != want:
+                c.violate(f"{name}:equals_predicate:negative_threshold", f"{name}:equals_predicate:negative_threshold", observed=result, expected=want,
+                          spec={"kind": name, "g1": geoms.to_spec(g1), "g2": geoms.to_spec(g2), "abs": a, "rel": r})
+        return
     if (a is not None and (not _finite(a) or a < 0)) or (r is not None and not _finite(r)):
         c.ood(f"{name}:threshold")
         return
@@ -500,7 +514,7 @@ def run(ctx):
                 mode = rng.choice(["none", "abs", "rel", "both"])
                 a = r = None
                 if mode == "abs":
-                    a = rng.choice([0.0, 0.25, 1.0, 256.0, 1000.0])
+                    a = rng.choice([0.0, 0.25, 1.0, 256.0, 1000.0, -0.25, -0.5, -64.0, -2000.0])
                 elif mode == "rel":
                     r = rng.choice([0.0, 0.25, 0.5, 1.0])
                 elif mode == "both":
